@@ -34,7 +34,15 @@ def balanced_ranges(lines):
 def _ref_for(rng, k, includer_url):
     name = "frag%d.conf" % k
     r = rng.random()
+    if r < 0.25:
+        return name
+    if r < 0.31:
+        # a reference that is already percent-encoded (a URL reference, not
+        # a file name): it must be used as it stands
+        return rng.choice(["sp%20dir/", "a%2Bb/", "%7Euser/"]) + name
     if r < 0.35:
+        if includer_url.startswith("file:"):
+            return "file:/sim/abs1/" + name     # single-slash spelling
         return name
     if r < 0.55:
         return "sub/" + name
